@@ -269,6 +269,19 @@ func genTree(t *rapid.T, o treeOpts, nm *namer) *model.Node {
 		}
 		return leaf
 	}
+	if o.Ellipsis && rapid.IntRange(0, 39).Draw(t, "manyEllipses") == 39 {
+		// more than ten ellipses in one tree: their numbering gets a second digit
+		k := rapid.IntRange(11, 24).Draw(t, "ellipsisLists")
+		root := &model.Node{Kind: model.L}
+		for i := 0; i < k; i++ {
+			ch := &model.Node{Kind: model.L, Children: []model.Child{{Node: g.leaf(t)}, {Var: "..."}}}
+			if rapid.IntRange(0, 3).Draw(t, "afterEllipsis") == 3 {
+				ch.Children = append(ch.Children, model.Child{Node: g.leaf(t)})
+			}
+			root.Children = append(root.Children, model.Child{Node: ch})
+		}
+		return root
+	}
 	return g.node(t, 1, 14)
 }
 
